@@ -1,6 +1,7 @@
 import Driver.Util
 import Driver.Part
 import Driver.Barrier
+import Driver.Deliver
 import Driver.Route
 import Driver.DSet
 import Driver.Coll
@@ -18,6 +19,7 @@ def main (args : List String) : IO UInt32 := do
   let stdin ← IO.getStdin
   match args with
   | ["part"] => lineLoop stdin Driver.Part.handle; return 0
+  | ["deliver"] => stateLoop stdin Driver.Deliver.handle Driver.Deliver.dummy; return 0
   | ["barrier"] => stateLoop stdin Driver.Barrier.handle Driver.Barrier.dummy; return 0
   | ["route"] => lineLoop stdin Driver.Route.handle; return 0
   | ["dset"] => lineLoop stdin Driver.DSet.handle; return 0
